@@ -45,41 +45,54 @@ def delEntry (nb : Dict (Dict α)) (a b : Nat) : Dict (Dict α) :=
 
 def getEntry (nb : Dict (Dict α)) (a b : Nat) : α := ((row nb a).get? b).getD 0
 
-/-- `AggregateGraph.merge(node1, node2)` -/
-def AggGraph.merge (g : AggGraph α) (node1 node2 : Nat) : AggGraph α :=
-  let new := g.next
+/-- body of `for node in common_neighbors` -/
+def commonStep (node1 node2 new : Nat) (nb : Dict (Dict α)) (node : Nat) : Dict (Dict α) :=
+  let v := getEntry nb node1 node + getEntry nb node2 node
+  let nb := delEntry (delEntry nb node1 node) node2 node
+  let nb := setEntry nb new node v
+  let w := getEntry nb node node1 + getEntry nb node node2
+  let nb := delEntry (delEntry nb node node1) node node2
+  setEntry nb node new w
+
+/-- body of `for neighbor in set(neighbors[node].keys()) - {node1, node2}` -/
+def otherStep (node new : Nat) (nb : Dict (Dict α)) (neighbor : Nat) : Dict (Dict α) :=
+  let v := getEntry nb node neighbor
+  let nb := delEntry nb node neighbor
+  let nb := setEntry nb new neighbor v
+  let w := getEntry nb neighbor node
+  let nb := delEntry nb neighbor node
+  setEntry nb neighbor new w
+
+/-- body of `for other_node in {node1, node2}` -/
+def selfStep (node new : Nat) (nb : Dict (Dict α)) (other : Nat) : Dict (Dict α) :=
+  if (row nb node).contains other then
+    setEntry nb new new (getEntry nb new new + getEntry nb node other)
+  else nb
+
+/-- body of `for node in {node1, node2}` -/
+def nodeStep (node1 node2 new : Nat) (nodes : List Nat) (nb : Dict (Dict α)) (node : Nat) : Dict (Dict α) :=
+  let others := (row nb node).keys.filter fun k => k != node1 && k != node2
+  let nb := others.foldl (otherStep node new) nb
+  let nb := nodes.foldl (selfStep node new) nb
+  nb.erase node
+
+/-- the dict of dicts after `merge(node1, node2)` -/
+def mergeNb (nb : Dict (Dict α)) (node1 node2 new : Nat) : Dict (Dict α) :=
   -- self.neighbors[new_node] = {}; self.neighbors[new_node][new_node] = 0
-  let nb0 := g.nb.set new [(new, (0 : α))]
+  let nb0 := nb.set new [(new, (0 : α))]
   let keys1 := (row nb0 node1).keys
   let keys2 := (row nb0 node2).keys
   let common := keys1.filter fun k => keys2.contains k && k != node1 && k != node2
-  -- for node in common_neighbors
-  let nb1 := common.foldl (fun nb node =>
-      let v := getEntry nb node1 node + getEntry nb node2 node
-      let nb := delEntry (delEntry nb node1 node) node2 node
-      let nb := setEntry nb new node v
-      let w := getEntry nb node node1 + getEntry nb node node2
-      let nb := delEntry (delEntry nb node node1) node node2
-      setEntry nb node new w) nb0
-  -- for node in {node1, node2}
+  let nb1 := common.foldl (commonStep node1 node2 new) nb0
   let nodes := if node1 = node2 then [node1] else [node1, node2]
-  let nb2 := nodes.foldl (fun nb node =>
-      let others := (row nb node).keys.filter fun k => k != node1 && k != node2
-      let nb := others.foldl (fun nb neighbor =>
-          let v := getEntry nb node neighbor
-          let nb := delEntry nb node neighbor
-          let nb := setEntry nb new neighbor v
-          let w := getEntry nb neighbor node
-          let nb := delEntry nb neighbor node
-          setEntry nb neighbor new w) nb
-      let nb := nodes.foldl (fun nb other =>
-          if (row nb node).contains other then
-            setEntry nb new new (getEntry nb new new + getEntry nb node other)
-          else nb) nb
-      nb.erase node) nb1
+  nodes.foldl (nodeStep node1 node2 new nodes) nb1
+
+/-- `AggregateGraph.merge(node1, node2)` -/
+def AggGraph.merge (g : AggGraph α) (node1 node2 : Nat) : AggGraph α :=
+  let new := g.next
   let popD {β : Type} (d : Dict β) (k : Nat) (dflt : β) : β := (d.get? k).getD dflt
   { next := g.next + 1
-    nb := nb2
+    nb := mergeNb g.nb node1 node2 new
     sizes := ((g.sizes.erase node1).erase node2).set new (popD g.sizes node1 0 + popD g.sizes node2 0)
     outW := ((g.outW.erase node1).erase node2).set new (popD g.outW node1 0 + popD g.outW node2 0)
     inW := ((g.inW.erase node1).erase node2).set new (popD g.inW node1 0 + popD g.inW node2 0) }
